@@ -4,7 +4,8 @@
 // Sub-properties (one pbt.Spec each):
 //
 //	avc-sps-dimensions   avc.ParseSps width x height == the H.264 encoder model's display size
-//	hevc-sps-dimensions  hevc.ParseSps width x height == the H.265 encoder model's size (no conformance window)
+//	hevc-sps-dimensions  hevc.ParseSps width x height == the H.265 encoder model's output size (conformance
+//	                     window applied in units of SubWidthC / SubHeightC)
 //	avc-seqheader        SPS/PPS survive BuildSeqHeaderFromSpsPps / ParseSpsPpsFromSeqHeader /
 //	                     SpsPpsSeqHeader2Annexb byte for byte, against reference record reader/writer
 //	hevc-seqheader       VPS/SPS/PPS survive the HEVC equivalents (classic and enhanced header)
@@ -16,7 +17,6 @@
 //	                     headers with the same bytes (remux_test.go)
 //
 // Deliberately NOT asserted (the property does not state it):
-//   - HEVC dimensions under a conformance window (never generated; lal reports the coded size)
 //   - profile_compatibility / general_* / chroma / bit-depth fields lal writes into the
 //     configuration records, profile-level-id, the MPEG4-GENERIC channel parameter
 //   - SPS fields other than width and height; fields lal does not expose
@@ -136,8 +136,16 @@ func runHevcDim(c HevcDimCase) *pbt.Violation {
 		return pbt.V("hevc-sps/parse-error", "hevc.ParseSps(%x) failed: %v; the encoder model intends %dx%d", nal, err, w, h)
 	}
 	if ctx.PicWidthInLumaSamples != w || ctx.PicHeightInLumaSamples != h {
-		return pbt.V("hevc-sps/dimensions", "hevc.ParseSps reports %dx%d, the SPS encodes %dx%d (max_sub_layers_minus1=%d chroma_format_idc=%d EPB=%v) sps=%x",
-			ctx.PicWidthInLumaSamples, ctx.PicHeightInLumaSamples, w, h, c.SPS.MaxSubLayersMinus1, c.SPS.ChromaFormatIdc, codecref.HasEPB(nal), nal)
+		sig := "hevc-sps/dimensions"
+		if c.SPS.ConfWin && ctx.PicWidthInLumaSamples == c.SPS.Width && ctx.PicHeightInLumaSamples == c.SPS.Height {
+			sig = "hevc-sps/conformance-window-ignored"
+		} else if c.SPS.ConfWin {
+			sig = "hevc-sps/conformance-window-units"
+		}
+		sw, sh := c.SPS.ChromaUnits()
+		return pbt.V(sig, "hevc.ParseSps reports %dx%d, the SPS encodes %dx%d (coded %dx%d, conformance window=%v l/r/t/b=%d/%d/%d/%d in units of %dx%d, max_sub_layers_minus1=%d chroma_format_idc=%d EPB=%v) sps=%x",
+			ctx.PicWidthInLumaSamples, ctx.PicHeightInLumaSamples, w, h, c.SPS.Width, c.SPS.Height, c.SPS.ConfWin, c.SPS.ConfWinL, c.SPS.ConfWinR, c.SPS.ConfWinT, c.SPS.ConfWinB, sw, sh,
+			c.SPS.MaxSubLayersMinus1, c.SPS.ChromaFormatIdc, codecref.HasEPB(nal), nal)
 	}
 	return nil
 }
@@ -154,6 +162,13 @@ func h265Labels(s *codecref.H265SPS, nal []byte) (bool, []string) {
 		}
 		if sl.LevelPresent {
 			labels = append(labels, "sub-layer-level")
+		}
+	}
+	if s.ConfWin {
+		labels = append(labels, "conformance-window")
+		nt = true
+		if s.ConfWinL != 0 || s.ConfWinT != 0 {
+			labels = append(labels, "conf-win-left/top")
 		}
 	}
 	if codecref.HasEPB(nal) {
@@ -390,6 +405,12 @@ type HevcSeqCase struct {
 	Enhanced     bool `json:"enhanced"`     // Enhanced-RTMP wrapping (hvc1 FourCC)
 	SEIArray     bool `json:"sei_array"`    // a fourth array (prefix SEI) after the PPS
 	Completeness bool `json:"completeness"` // array_completeness bits
+	// record shapes ISO/IEC 14496-15 8.3.3.1 allows and encoders / muxers emit:
+	// further NAL units in the VPS / SPS / PPS arrays, a suffix-SEI array, and
+	// any array order (VPS, SPS, PPS, SEI is only the recommended one)
+	Extra     [3][]PS `json:"extra"`
+	SEISuffix bool    `json:"sei_suffix"`
+	Order     []int   `json:"order,omitempty"` // permutation of the arrays present; nil = recommended order
 }
 
 var (
@@ -410,6 +431,28 @@ func genHevcSeq(t *rapid.T) HevcSeqCase {
 	c.Enhanced = rapid.Bool().Draw(t, "enhanced")
 	c.SEIArray = rapid.IntRange(0, 3).Draw(t, "sei") == 0
 	c.Completeness = rapid.Bool().Draw(t, "completeness")
+	if rapid.IntRange(0, 2).Draw(t, "multi") == 0 {
+		for i := range c.Extra {
+			for j, n := 0, rapid.IntRange(0, 2).Draw(t, "nExtra"); j < n; j++ {
+				c.Extra[i] = append(c.Extra[i], psGen(600).Draw(t, "extra"))
+			}
+		}
+	}
+	c.SEISuffix = rapid.IntRange(0, 5).Draw(t, "seiSuffix") == 0
+	if rapid.IntRange(0, 2).Draw(t, "reorder") == 0 {
+		n := 3
+		if c.SEIArray {
+			n++
+		}
+		if c.SEISuffix {
+			n++
+		}
+		idx := make([]int, n)
+		for i := range idx {
+			idx[i] = i
+		}
+		c.Order = rapid.Permutation(idx).Draw(t, "order")
+	}
 	return c
 }
 
@@ -454,12 +497,35 @@ func runHevcSeq(c HevcSeqCase) *pbt.Violation {
 	if c.Raw != nil {
 		want = [][]byte{c.Raw[0].bytes(hevcVPSHdr), c.Raw[1].bytes(hevcSPSHdr), c.Raw[2].bytes(hevcPPSHdr)}
 	}
+	lists := [3][][]byte{{want[0]}, {want[1]}, {want[2]}}
+	hdrs := [][]byte{hevcVPSHdr, hevcSPSHdr, hevcPPSHdr}
+	multi := false
+	for i := range c.Extra {
+		for _, e := range c.Extra[i] {
+			lists[i] = append(lists[i], e.bytes(hdrs[i]))
+			multi = true
+		}
+	}
 	rec := codecref.HEVCConfig{ProfileIdc: 1, CompatFlags: 0x60000000, ConstraintFlags: 0x900000000000, LevelIdc: 93, ChromaFormat: 1,
 		NumTemporalLayers: 1, TemporalIdNested: true, LengthSizeMinusOne: 3,
-		Arrays: []codecref.HEVCArray{{Completeness: c.Completeness, NALType: 32, NALUs: [][]byte{want[0]}}, {Completeness: c.Completeness, NALType: 33, NALUs: [][]byte{want[1]}}, {Completeness: c.Completeness, NALType: 34, NALUs: [][]byte{want[2]}}}}
+		Arrays: []codecref.HEVCArray{{Completeness: c.Completeness, NALType: 32, NALUs: lists[0]}, {Completeness: c.Completeness, NALType: 33, NALUs: lists[1]}, {Completeness: c.Completeness, NALType: 34, NALUs: lists[2]}}}
 	if c.SEIArray {
 		rec.Arrays = append(rec.Arrays, codecref.HEVCArray{NALType: 39, NALUs: [][]byte{{0x4e, 0x01, 0x05, 0x01, 0xaa, 0x80}}})
 	}
+	if c.SEISuffix {
+		rec.Arrays = append(rec.Arrays, codecref.HEVCArray{NALType: 40, NALUs: [][]byte{{0x50, 0x01, 0x84, 0x01, 0x55, 0x80}}})
+	}
+	if c.Order != nil {
+		if len(c.Order) != len(rec.Arrays) {
+			panic(pbt.HarnessError{Msg: "array order does not match the arrays present"})
+		}
+		re := make([]codecref.HEVCArray, len(rec.Arrays))
+		for i, j := range c.Order {
+			re[i] = rec.Arrays[j]
+		}
+		rec.Arrays = re
+	}
+	shape := fmt.Sprintf("arrays (type x units): %s", hevcShape(rec.Arrays))
 	var payload []byte
 	var parse func([]byte) ([]byte, []byte, []byte, error)
 	var toAnnexb func([]byte) ([]byte, error)
@@ -472,23 +538,87 @@ func runHevcSeq(c HevcSeqCase) *pbt.Violation {
 		payload = codecref.RtmpHevcSeqHeader(rec.Marshal())
 		parse, toAnnexb = hevc.ParseVpsSpsPpsFromSeqHeader, hevc.VpsSpsPpsSeqHeader2Annexb
 	}
+	// the single-valued API: each returned set is one of the record's sets of that type
+	member := func(b []byte, l [][]byte) bool {
+		for _, e := range l {
+			if eq(b, e) {
+				return true
+			}
+		}
+		return false
+	}
 	v3, s3, p3, err := parse(payload)
 	if err != nil {
-		return pbt.V("hevc-parse/error", "reading a reference-built %s sequence header failed: %v (vps %d sps %d pps %d bytes, sei array=%v)", what, err, len(want[0]), len(want[1]), len(want[2]), c.SEIArray)
+		return pbt.V("hevc-parse/error", "reading a reference-built %s sequence header failed: %v (vps %d sps %d pps %d bytes; %s)", what, err, len(want[0]), len(want[1]), len(want[2]), shape)
 	}
-	if !eqList([][]byte{v3, s3, p3}, want) {
-		return pbt.V("hevc-parse/sets", "sets read from a reference-built %s header differ: vps %s; sps %s; pps %s", what, firstDiff(want[0], v3), firstDiff(want[1], s3), firstDiff(want[2], p3))
+	if !member(v3, lists[0]) || !member(s3, lists[1]) || !member(p3, lists[2]) {
+		return pbt.V("hevc-parse/sets", "sets read from a reference-built %s header are not the record's: vps %s of %s; sps %s of %s; pps %s of %s (%s)", what, head(v3), heads(lists[0]), head(s3), heads(lists[1]), head(p3), heads(lists[2]), shape)
 	}
 	if !c.Enhanced {
 		v4, s4, p4, err := hevc.ParseVpsSpsPpsFromSeqHeaderWithoutMalloc(payload)
-		if err != nil || !eqList([][]byte{v4, s4, p4}, want) {
-			return pbt.V("hevc-parse/without-malloc", "ParseVpsSpsPpsFromSeqHeaderWithoutMalloc differs from the sets written (err=%v)", err)
+		if err != nil || !member(v4, lists[0]) || !member(s4, lists[1]) || !member(p4, lists[2]) {
+			return pbt.V("hevc-parse/without-malloc", "ParseVpsSpsPpsFromSeqHeaderWithoutMalloc differs from the sets written (err=%v; %s)", err, shape)
 		}
 	}
-	if v := checkAnnexb("hevc-seqheader2annexb", func() ([]byte, error) { return toAnnexb(payload) }, want); v != nil {
-		return v
+	// Annex-B: every VPS / SPS / PPS of the record, each once (SEI may or may not be kept)
+	for _, e := range []struct {
+		sig string
+		f   func([]byte) ([]byte, error)
+	}{{"hevc-seqheader2annexb", toAnnexb}, {"h2645-seqheader2annexb", func(b []byte) ([]byte, error) { return h2645.SeqHeader2Annexb(false, b) }}} {
+		out, err := e.f(payload)
+		if err != nil {
+			return pbt.V(e.sig+"/error", "conversion of a reference-built %s sequence header to Annex-B failed: %v (%s)", what, err, shape)
+		}
+		units, err := codecref.SplitAnnexB(out)
+		if err != nil {
+			return pbt.V(e.sig+"/ref-unreadable", "the reference Annex-B reader rejects the output: %v; output %s", err, head(out))
+		}
+		var got [3][][]byte
+		for _, u := range units {
+			if t := int(u[0]>>1&0x3f) - 32; t >= 0 && t <= 2 {
+				got[t] = append(got[t], u)
+			}
+		}
+		for i := range got {
+			if !sameMultiset(got[i], lists[i]) {
+				return pbt.V(e.sig+"/unit-list", "Annex-B output of a %s header carries %s for NAL type %d, the record has %s (%s)", what, heads(got[i]), 32+i, heads(lists[i]), shape)
+			}
+		}
+		if !multi && c.Order == nil && !eqList(units[:3], want) {
+			return pbt.V(e.sig+"/unit-list", "Annex-B output splits into %s, want %s first", heads(units), heads(want))
+		}
 	}
 	return nil
+}
+
+func hevcShape(a []codecref.HEVCArray) string {
+	s := ""
+	for i, e := range a {
+		if i > 0 {
+			s += " "
+		}
+		s += fmt.Sprintf("%dx%d", e.NALType, len(e.NALUs))
+	}
+	return s
+}
+
+func sameMultiset(a, b [][]byte) bool {
+	if len(a) != len(b) {
+		return false
+	}
+	m := map[string]int{}
+	for _, e := range a {
+		m[string(e)]++
+	}
+	for _, e := range b {
+		m[string(e)]--
+	}
+	for _, n := range m {
+		if n != 0 {
+			return false
+		}
+	}
+	return true
 }
 
 func classifyHevcSeq(c HevcSeqCase) (bool, []string) {
@@ -514,7 +644,19 @@ func classifyHevcSeq(c HevcSeqCase) (bool, []string) {
 		labels = append(labels, "classic-header")
 	}
 	if c.SEIArray {
-		labels = append(labels, "four-arrays")
+		labels = append(labels, "sei-prefix-array")
+	}
+	if c.SEISuffix {
+		labels = append(labels, "sei-suffix-array")
+	}
+	if len(c.Extra[0])+len(c.Extra[1])+len(c.Extra[2]) > 0 {
+		labels = append(labels, "several-units-per-array")
+	}
+	if c.Order != nil {
+		labels = append(labels, "array-order-permuted")
+		if c.Order[0] != 0 {
+			labels = append(labels, "first-array-not-vps")
+		}
 	}
 	return nt, uniq(labels)
 }
@@ -744,6 +886,11 @@ type AacCase struct {
 	Blocks                                                        uint8  `json:"blocks"`
 	// an arbitrary AudioSpecificConfig for the ASC <-> RTMP sequence header leg
 	AnyASC []byte `json:"any_asc"`
+	// HE-AAC / HE-AACv2 with explicit hierarchical signalling: the ASC starts with object type 5 (SBR) or
+	// 29 (PS), carries the core sampling index, the extension index and then the underlying object type
+	// (ObjectType above).  ADTS carries the underlying type and the core index.
+	SBR      string `json:"sbr"` // "", "sbr", "ps"
+	ExtIndex int    `json:"ext_index"`
 }
 
 func genAac(t *rapid.T) AacCase {
@@ -758,6 +905,8 @@ func genAac(t *rapid.T) AacCase {
 		Fullness: rapid.Uint16Range(0, 0x7ff).Draw(t, "fullness"), Blocks: rapid.Uint8Range(0, 3).Draw(t, "blocks"),
 	}
 	c.AnyASC = genASC(t)
+	c.SBR = rapid.SampledFrom([]string{"", "", "", "sbr", "ps"}).Draw(t, "sbr")
+	c.ExtIndex = rapid.IntRange(0, 12).Draw(t, "extIdx")
 	return c
 }
 
@@ -779,6 +928,24 @@ func genASC(t *rapid.T) []byte {
 }
 
 func runAac(c AacCase) *pbt.Violation {
+	if c.SBR != "" {
+		// ---- HE-AAC ASC -> ADTS ---------------------------------------------------------
+		asc := codecref.BuildASCExplicitSBR(c.SBR == "ps", c.FreqIndex, c.Channels, c.ExtIndex, c.ObjectType, c.FL960)
+		ctx, err := aac.NewAscContext(asc)
+		if err != nil {
+			return pbt.V("asc-unpack/error", "NewAscContext(%x) failed: %v", asc, err)
+		}
+		hdr := ctx.PackAdtsHeader(c.FrameLen)
+		ad, err := codecref.ParseADTS(hdr)
+		if err != nil {
+			return pbt.V("asc2adts/not-an-adts-header", "ADTS header %x written for ASC %x: %v", hdr, asc, err)
+		}
+		if int(ad.Profile)+1 != c.ObjectType || int(ad.FreqIndex) != c.FreqIndex || int(ad.ChannelConfig) != c.Channels {
+			return pbt.V("asc2adts/explicit-sbr", "ASC %x (explicit %s signalling: underlying object type %d, core sampling index %d, channels %d) -> ADTS header %x with profile_ObjectType %d (= object type %d), sampling_frequency_index %d, channel_configuration %d",
+				asc, c.SBR, c.ObjectType, c.FreqIndex, c.Channels, hdr, ad.Profile, ad.Profile+1, ad.FreqIndex, ad.ChannelConfig)
+		}
+		return nil
+	}
 	asc := codecref.BuildASC(c.ObjectType, c.FreqIndex, 0, c.Channels, c.FL960, 0)
 	if len(asc) != 2 {
 		panic(pbt.HarnessError{Msg: "two-byte ASC expected"})
@@ -845,6 +1012,16 @@ func runAac(c AacCase) *pbt.Violation {
 	if len(sh) != len(c.AnyASC)+2 || sh[0]>>4 != 10 || sh[1] != 0 || !eq(sh[2:], c.AnyASC) {
 		return pbt.V("asc2seqheader/bytes", "MakeAudioDataSeqHeaderWithAsc(%x) = %x: not <AAC sound format, packet type 0> + the ASC", c.AnyASC, sh)
 	}
+	// the sampling frequency lal derives from any ASC (it becomes the RTP / SDP clock rate)
+	if ra, err := codecref.ParseASC(c.AnyASC); err == nil && ra.Frequency > 0 {
+		ac, err := aac.NewAscContext(c.AnyASC)
+		if err != nil {
+			return pbt.V("asc-unpack/error", "NewAscContext(%x) failed: %v", c.AnyASC, err)
+		}
+		if hz, err := ac.GetSamplingFrequency(); err != nil || hz != ra.Frequency {
+			return pbt.V("asc-unpack/frequency", "GetSamplingFrequency() = %d, %v for ASC %x; it encodes object type %d, samplingFrequencyIndex %d, %d Hz", hz, err, c.AnyASC, ra.ObjectType, ra.FreqIndex, ra.Frequency)
+		}
+	}
 	return nil
 }
 
@@ -876,6 +1053,9 @@ func classifyAac(c AacCase) (bool, []string) {
 	}
 	if len(c.AnyASC) > 2 {
 		labels = append(labels, "asc>2B")
+	}
+	if c.SBR != "" {
+		labels = []string{"explicit-" + c.SBR + "-to-adts", fmt.Sprintf("aot=%d", c.ObjectType)}
 	}
 	// every (type, index, channels) triple is a distinct point of the stated domain
 	return true, labels
